@@ -32,7 +32,14 @@ REMOTE = {
                    "e": {"$ref": "e.json#/t"}},
     H + "e.json": {"t": {"minimum": 5}},
 }
-STORE = {H + "s.json": {"t": {"type": "boolean"}}}
+STORE = {H + "s.json#": {"t": {"type": "boolean"}}}        # as ids are usually written: not in normal form
+
+
+class Odd(Exception):
+    pass
+
+
+FAILURES = [IOError, KeyError, RuntimeError, Odd, TypeError, LookupError]
 
 
 def driver(d):
@@ -119,7 +126,8 @@ class World(object):
             self.calls.append(key)
             if (self.mode != "ok" and not self.always_ok) or key not in REMOTE:
                 self.failures[key] += 1
-                raise IOError("cannot fetch " + uri)
+                # any exception whatsoever from a handler must surface as RefResolutionError
+                raise FAILURES[sum(self.failures.values()) % len(FAILURES)]("cannot fetch " + uri)
             self.ok_fetches[key] += 1
             return copy.deepcopy(REMOTE[key])
         kw = {}
